@@ -20,8 +20,11 @@ for p in props:
     for node in tree.body:
         if isinstance(node, ast.Assign) and len(node.targets) == 1 and isinstance(node.targets[0], ast.Name):
             n = node.targets[0].id
-            if n in ('LEVEL', 'TECHNIQUE', 'LEVEL_TEXT', 'LEVEL_NOTE', 'DESIGN_REF'):
+            if n in ('LEVEL', 'TECHNIQUE', 'LEVEL_TEXT', 'LEVEL_NOTE', 'DESIGN_REF', 'READY'):
                 ns[n] = ast.literal_eval(node.value)
+    if not ns.get('READY'):
+        na.append({'property_id': pid, 'reason': 'runtime monitor for this property is still being validated in this session; not claimed until it is silent on the unchanged tree and catches deliberate breaks'})
+        continue
     checks.append({
         'property_id': pid,
         'quick_cmd': f'./check {pid} --tier quick',
